@@ -217,13 +217,16 @@ impl Ctx {
 
 struct Sweep {
     n_max: usize,
-    /// n_max for the three-sink demux
-    n_max3: usize,
+    /// ≤ k Pendings per phase: single-sink families, and sticky two-sink families
     k: usize,
-    /// k for fickle scripts of multi-sink families
-    k_fickle_multi: usize,
-    k3_sticky: usize,
-    k3_fickle: usize,
+    /// fickle two-sink families: k by number of input items
+    k2_fickle: [usize; 5],
+    /// SinkBuild chains with two inner sinks: (max items of chain_unzip, max items of send_stream…demux, k sticky, k fickle)
+    chain2: (usize, usize, usize, usize),
+    /// three-sink demux_var: k by number of input items (sticky, fickle)
+    k3_sticky: [usize; 5],
+    k3_fickle: [usize; 5],
+    n_max3: usize,
     k_init: usize,
     n_lss: usize,
     sched_len: u8,
@@ -335,29 +338,36 @@ fn sweep_plain(ctx: &mut Ctx, sw: &Sweep) {
 fn sweep_multi(ctx: &mut Ctx, sw: &Sweep) {
     // two inner sinks: full product of per-sink placements
     for &fam in &[Fam::Unzip, Fam::DemuxMap, Fam::DemuxMapLazy, Fam::DemuxVar2, Fam::ChainUnzip, Fam::SendStreamDemux] {
+        let chain = matches!(fam, Fam::ChainUnzip | Fam::SendStreamDemux);
         let item_seqs = match fam {
             Fam::Unzip => lens(sw.n_max),
-            Fam::ChainUnzip => seqs(3, sw.n_max.min(3)),
-            Fam::SendStreamDemux => seqs(3, sw.n_max.min(3)),
+            Fam::ChainUnzip => seqs(3, sw.chain2.0),
+            Fam::SendStreamDemux => seqs(3, sw.chain2.1),
             _ => seqs(2, sw.n_max),
         };
         for items in item_seqs {
             for fickle in [false, true] {
-                let k = if fickle { sw.k_fickle_multi } else { sw.k };
+                let k = match (chain, fickle) {
+                    (true, false) => sw.chain2.2,
+                    (true, true) => sw.chain2.3,
+                    (false, false) => sw.k,
+                    (false, true) => sw.k2_fickle[items.len()],
+                };
                 for plan in plans(items.len(), false) {
                     if fam.self_driving() && (plan.flush_after != 0 || !plan.final_flush) {
                         continue;
                     }
-                    // mid-stream flush / close-without-flush plans only with the sticky flavour to keep
-                    // the product affordable; the fickle flavour runs the plain plan
-                    if fickle && (plan.flush_after != 0 || !plan.final_flush) {
+                    // the alternative driver plans (mid-stream flush, close without flush) run with the
+                    // sticky flavour and ≤ 1 Pending per phase to keep the product affordable
+                    let alt = plan.flush_after != 0 || !plan.final_flush;
+                    if fickle && alt {
                         continue;
                     }
                     let mut c = Case::new(fam);
                     c.items = items.clone();
                     c.fickle = fickle;
                     c.plan = plan;
-                    let kk = if plan.flush_after != 0 || !plan.final_flush { k.min(1) } else { k };
+                    let kk = if alt { k.min(1) } else { k };
                     let b = Bounds { k_ready: kk, k_fc: kk, fickle_fc_placements: true };
                     let extra = if fam.self_driving() { 2 } else { 1 };
                     let lists: Vec<Vec<SinkScript>> =
@@ -379,7 +389,7 @@ fn sweep_multi(ctx: &mut Ctx, sw: &Sweep) {
     // three inner sinks
     for items in seqs(3, sw.n_max3) {
         for fickle in [false, true] {
-            let k = if fickle { sw.k3_fickle } else { sw.k3_sticky };
+            let k = if fickle { sw.k3_fickle[items.len()] } else { sw.k3_sticky[items.len()] };
             let mut c = Case::new(Fam::DemuxVar3);
             c.items = items.clone();
             c.fickle = fickle;
@@ -611,9 +621,31 @@ fn main() {
     match args.tier {
         Tier::Quick | Tier::Thorough => {
             let sw = if args.tier == Tier::Quick {
-                Sweep { n_max: 4, n_max3: 3, k: 2, k_fickle_multi: 2, k3_sticky: 2, k3_fickle: 1, k_init: 2, n_lss: 3, sched_len: 4 }
+                Sweep {
+                    n_max: 4,
+                    k: 2,
+                    k2_fickle: [2, 2, 2, 2, 1],
+                    chain2: (2, 3, 1, 1),
+                    k3_sticky: [2, 2, 2, 1, 1],
+                    k3_fickle: [1, 1, 1, 1, 1],
+                    n_max3: 3,
+                    k_init: 2,
+                    n_lss: 3,
+                    sched_len: 4,
+                }
             } else {
-                Sweep { n_max: 4, n_max3: 4, k: 3, k_fickle_multi: 2, k3_sticky: 2, k3_fickle: 1, k_init: 3, n_lss: 4, sched_len: 5 }
+                Sweep {
+                    n_max: 4,
+                    k: 3,
+                    k2_fickle: [2, 2, 2, 2, 2],
+                    chain2: (3, 3, 2, 1),
+                    k3_sticky: [2, 2, 2, 2, 1],
+                    k3_fickle: [1, 1, 1, 1, 1],
+                    n_max3: 4,
+                    k_init: 3,
+                    n_lss: 4,
+                    sched_len: 5,
+                }
             };
             sweep_plain(&mut ctx, &sw);
             sweep_multi(&mut ctx, &sw);
